@@ -5,6 +5,7 @@ import GqlModel.Validate.Local
 import GqlModel.Validate.Graph
 import GqlModel.Validate.Overlap
 import GqlModel.Validate.TypeInfo
+import GqlModel.TypeInfoStacks
 /-! Driver for C02 (validation rules).
 
 `{"schema":<gq.SchemaDesc>, "doc":<astjson Document>}` →
@@ -14,7 +15,10 @@ import GqlModel.Validate.TypeInfo
                            "M": [[[start,end]…]…],       -- the rule as coded
                            "Mviolated": bool} …}}`
 `{"introspection":true}` → the model's table of introspection types (cross-checked against the real type map).
-`{"typeinfo":true,"schema":…,"doc":…}` → `{"recs":[…]}` the top-down TypeInfo of every observed node (unit c14ti). -/
+`{"typeinfo":true,"schema":…,"doc":…}` → `{"recs":[…]}` the top-down TypeInfo of every observed node (unit c14ti);
+  also `"mrecs"`: the rows the STACK MACHINE `GqlModel.TypeInfoStacks` (M of Props/C14TypeInfo) shows a wrapped visitor, in
+  visiting order, `"mrecsSkip"`: the same when the visitor skips the nodes listed in `"skip":[[kind,start]…]`,
+  `"argsUnique"` / `"executable"`: the premises of `typeinfo_eq_context` evaluated on this case. -/
 open Lean GqlModel GqlModel.Validate
 
 namespace Driver.C02
@@ -56,6 +60,18 @@ def encTIRec (r : TIRec) : Json :=
     Json.str (renderOptType r.st.c.ty), o r.st.c.parent, Json.str (renderOptType r.st.input),
     o (r.st.c.fieldDef.map (·.name)), o (r.st.directive.map (·.name)), o r.st.argument]
 
+/-- rows of the stack machine M (worker c14ti-proof; `GqlModel.TypeInfoStacks.mRecords`) -/
+def encRow (r : TypeInfoStacks.Row) : Json :=
+  Json.arr #[Json.str r.kind, Json.num r.start, Json.num r.stop, Json.str r.type, Json.str r.parent, Json.str r.input,
+    Json.str r.fieldDef, Json.str r.directive, Json.str r.argument]
+
+def decSkips (j : Json) : List (String × Nat) :=
+  match j.getObjVal? "skip" with
+  | .ok (.arr xs) => xs.toList.filterMap (fun x => match x with
+      | .arr #[.str k, n] => (n.getNat?.toOption).map (fun st => (k, st))
+      | _ => none)
+  | _ => []
+
 def handle (j : Json) : Except String Json := do
   match j.getObjVal? "introspection" with
   | .ok (.bool true) => return encIntrospection
@@ -63,7 +79,13 @@ def handle (j : Json) : Except String Json := do
   let s ← Driver.SchemaJson.decSchema (← j.getObjVal? "schema")
   let d ← Driver.AstJson.decDocument (← j.getObjVal? "doc")
   match j.getObjVal? "typeinfo" with
-  | .ok (.bool true) => return Json.mkObj [("recs", Json.arr ((tiRecords s d).map encTIRec).toArray)]
+  | .ok (.bool true) =>
+    let skips := decSkips j
+    let pol : TIRec → Bool := fun r => skips.contains (r.kind, r.loc.start)
+    let rows (p : TIRec → Bool) : Json := Json.arr (((TypeInfoStacks.mRecords s p d).map TypeInfoStacks.row).map encRow).toArray
+    return Json.mkObj [("recs", Json.arr ((tiRecords s d).map encTIRec).toArray),
+      ("mrecs", rows TypeInfoStacks.noSkip), ("mrecsSkip", if skips.isEmpty then Json.null else rows pol),
+      ("argsUnique", TypeInfoStacks.argsUniqueB s), ("executable", TypeInfoStacks.isExecDoc d)]
   | _ => pure ()
   let rules := registry.map (fun (nm, m, sp) =>
     let es := sp s d
